@@ -36,8 +36,9 @@ from vlib.universe import Par, PO, POK, VP, KWO, VK
 ONAMES = ('a', 'b', 'c')
 LNAMES = ('x', 'y', 'z', 'a')
 CTXS = ('return', 'assign', 'if', 'try', 'with', 'listcomp', 'dictcomp', 'genexp', 'nested', 'lambda',
-        'decoyarg', 'ternary', 'nested2', 'lambda_default', 'walrus', 'fstring', 'starred_display')
-NESTED_CTXS = ('nested', 'lambda', 'nested2')
+        'decoyarg', 'ternary', 'nested2', 'lambda_default', 'walrus', 'fstring', 'starred_display',
+        'nested_decoyarg', 'lambda_decoykw', 'lambda_subscript')
+NESTED_CTXS = ('nested', 'lambda', 'nested2', 'nested_decoyarg', 'lambda_decoykw', 'lambda_subscript')
 ROUTES = ('global', 'closure', 'attr', 'self_method', 'self_attr', 'param', 'partial_inner',
           'shadow_posonly', 'shadow_lambda', 'shadow_nested', 'local_rebind', 'missing', 'noncallable',
           'classmethod_cls')
@@ -110,6 +111,7 @@ def st_program(max_calls=3, routes=ROUTES, ctxs=CTXS, allow_taints=True, decos=N
             'calls': calls, 'multi': draw(st.sampled_from(['branch', 'seq'])), 'route': route,
             'taints': taints, 'deco': deco, 'decoys': draw(st.integers(0, 2)),
             'argexpr': draw(st.sampled_from(['const', 'const', 'param'])),
+            'mention': draw(st.sampled_from([None, None, None, 'callee', 'base'])),
         }
         return normalise(prog)
     return build()
@@ -137,8 +139,10 @@ def st_call(leaves, nleaves, has_va, has_vk, ctxs=CTXS):
         own = ['own'] * 6 + ['none', 'foreign', 'own+f']
         sa = draw(st.sampled_from(own if has_va else ['none', 'none', 'foreign']))
         sk = draw(st.sampled_from(own if has_vk else ['none', 'none', 'foreign']))
+        inarg = draw(st.sampled_from([None] * 8 + ['pop', 'mutate']))
+        unres = draw(st.integers(0, 11)) == 0
         return {'to': to, 'npos': npos, 'names': list(names), 'sa': sa, 'sk': sk,
-                'ctx': draw(st.sampled_from(ctxs))}
+                'ctx': draw(st.sampled_from(ctxs)), 'inarg': inarg, 'unres': unres}
     return build()
 
 
@@ -177,10 +181,24 @@ def normalise(prog):
             spec = [Par(*p) for p in prog['leaves'][c['to']]]
             c['npos'] = sum(1 for p in spec if p.kind in (PO, POK) and p.default is None)
             c['names'] = [p.name for p in spec if p.kind == KWO and p.default is None]
+    nested_any = any(c['ctx'] in NESTED_CTXS for c in prog['calls'])
+    for c in prog['calls']:
+        c.setdefault('inarg', None)
+        c.setdefault('unres', False)
+        if c['inarg'] and (nested_any or 'own' not in c['sk'] or not (c['npos'] or c['names'])
+                           or prog['route'] == 'partial_inner'):
+            c['inarg'] = None
+        if c['unres'] and prog['route'] in UNRESOLVABLE + ('partial_inner',):
+            c['unres'] = False
+    prog.setdefault('mention', None)
+    if prog['mention'] and prog['route'] in ('missing', 'local_rebind'):
+        prog['mention'] = None
+    if any(c['inarg'] == 'mutate' for c in prog['calls']):
+        prog['multi'] = 'branch'
     # a star whose taint already brings the hidden values in is not combined with them again
     # (**k, **HK with k == HK can never bind; *p, *HA with p == HA only gives even counts)
-    ts = taint_state(prog)
-    for c in prog['calls']:
+    for j, c in enumerate(prog['calls']):
+        ts = taint_state(prog, j)
         if ts['args'][1] in ('hidden', 'both') and c['sa'] == 'own+f':
             c['sa'] = 'own'
         if ts['kwargs'][1] in ('hidden', 'both') and c['sk'] == 'own+f':
@@ -190,6 +208,11 @@ def normalise(prog):
     prog['taints'] = [t for t in prog['taints'] if has[(TAINTS.get(t['name']) or HARMLESS[t['name']])[0]]]
     if prog.get('argexpr') == 'param' and not [p for p in outer if p.kind in (PO, POK, KWO)]:
         prog['argexpr'] = 'const'
+    # an unresolvable callee only matters in a call that forwards a star (others are ignored,
+    # and would merely fail on their own at run time)
+    for c, t in zip(prog['calls'], ground_truth(prog)):
+        if t['ignored']:
+            c['unres'] = False
     return prog
 
 
@@ -232,8 +255,12 @@ def _call_expr(prog, call, callee_expr, outer, j):
     va, vk = star_names(outer)
     parts = []
     named = [p.name for p in outer if p.kind in (PO, POK, KWO)]
+    inexpr = {'pop': "%s.pop('zz9', None)" % vk, 'mutate': 'MUTATE(%s)' % vk}.get(call.get('inarg'))
     for i in range(call['npos']):
-        if prog.get('argexpr') == 'param' and named and i == 0:
+        if inexpr and i == call['npos'] - 1:
+            parts.append(inexpr)
+            inexpr = None
+        elif prog.get('argexpr') == 'param' and named and i == 0:
             parts.append(named[0])
         else:
             parts.append(str(1000 + 10 * j + i))
@@ -247,7 +274,11 @@ def _call_expr(prog, call, callee_expr, outer, j):
     elif sa == 'own+own':
         parts += ['*' + va, '*' + va]
     for n in call['names']:
-        parts.append('%s=%r' % (n, 'kv_' + n))
+        if inexpr:
+            parts.append('%s=%s' % (n, inexpr))
+            inexpr = None
+        else:
+            parts.append('%s=%r' % (n, 'kv_' + n))
     sk = call['sk']
     if sk == 'own':
         parts.append('**' + vk)
@@ -286,6 +317,12 @@ def _stmt(ctx, expr, j):
                 % (j, j, expr, j, r, j))
     if ctx == 'lambda':
         return '%s = (lambda: %s)()\n' % (r, expr)
+    if ctx == 'nested_decoyarg':
+        return 'def _inner%d():\n    return DECOY(%s)\n%s = _inner%d()\n' % (j, expr, r, j)
+    if ctx == 'lambda_decoykw':
+        return '%s = (lambda: DECOY(x=%s))()\n' % (r, expr)
+    if ctx == 'lambda_subscript':
+        return '%s = (lambda: (%s, 0)[0])()\n' % (r, expr)
     if ctx == 'lambda_default':
         return '%s = (lambda _v=%s: _v)()\n' % (r, expr)
     if ctx == 'decoyarg':
@@ -351,9 +388,17 @@ def render(prog):
             body.append((TAINTS.get(t['name']) or HARMLESS[t['name']])[1].format(**fmt) + '\n')
     if route == 'local_rebind':
         body.append(''.join('L%d = ALT\n' % i for i in range(len(leaves))))
+    if prog.get('mention'):
+        e0 = callee_expr[prog['calls'][0]['to']]
+        if prog['mention'] == 'base' and '.' in e0:
+            e0 = e0.rsplit('.', 1)[0]
+        body.append('DECOY(%s)\n' % e0)
+    for j, c in enumerate(prog['calls']):
+        if c.get('unres'):
+            body.append('_loc%d = DECOY(ALT)\n' % j)
     stmts = []
     for j, c in enumerate(prog['calls']):
-        expr = _call_expr(prog, c, callee_expr[c['to']], outer, j)
+        expr = _call_expr(prog, c, '_loc%d' % j if c.get('unres') else callee_expr[c['to']], outer, j)
         if route == 'shadow_posonly':
             expr = '(lambda L%d, /: %s)(ALT)' % (c['to'], expr)
         elif route == 'shadow_lambda':
@@ -414,17 +459,17 @@ def render(prog):
 
 # --------------------------------------------------------------------------- ground truth
 
-def taint_state(prog, nested=False):
-    """What the generator wrote about each star, as seen by the forwarding statement(s):
-    {'args': (tainted?, flow), 'kwargs': ...} with flow in 'same' (caller content reaches the
-    callee unchanged), 'hidden' (only harness-controlled values), 'both', 'dead' (deleted).
-    Only taints placed before the forwarding statements count (for calls in nested scopes the
-    generator only places taints before -- see normalise)."""
+def taint_state(prog, upto=None):
+    """What the generator wrote about each star, as seen by forwarding call number `upto`
+    (None: by the last one): {'args': (tainted?, flow), 'kwargs': ...} with flow in 'same'
+    (caller content reaches the callee unchanged), 'hidden' (only harness-controlled values),
+    'both', 'dead' (deleted).  Taint statements placed before the forwarding statements count
+    (for calls in nested scopes the generator only places taints before -- see normalise), and
+    so does an argument expression of this or an earlier call that touches **kwargs (it is
+    evaluated before the mapping is unpacked)."""
     st = {'args': (False, 'same'), 'kwargs': (False, 'same')}
-    for t in prog['taints']:
-        if t['name'] in HARMLESS or t['where'] != 'before':
-            continue
-        target, _, flow = TAINTS[t['name']]
+
+    def apply(target, flow):
         cur = st[target][1]
         if flow == 'hidden':
             new = 'hidden'
@@ -435,6 +480,18 @@ def taint_state(prog, nested=False):
         else:
             new = cur
         st[target] = (True, new)
+    for t in prog['taints']:
+        if t['name'] in HARMLESS or t['where'] != 'before':
+            continue
+        target, _, flow = TAINTS[t['name']]
+        apply(target, flow)
+    calls = prog['calls']
+    last = len(calls) - 1 if upto is None else upto
+    for c in calls[:last + 1]:
+        if c.get('inarg') == 'pop':
+            apply('kwargs', 'same')
+        elif c.get('inarg') == 'mutate':
+            apply('kwargs', 'both')
     return st
 
 
@@ -446,8 +503,8 @@ def ground_truth(prog):
     has_va = any(p.kind == VP for p in outer)
     has_vk = any(p.kind == VK for p in outer)
     out = []
-    for c in prog['calls']:
-        ts = taint_state(prog, c['ctx'] in NESTED_CTXS)
+    for j, c in enumerate(prog['calls']):
+        ts = taint_state(prog, j)
 
         def flags(mode, has, tainted):
             if mode == 'none':
@@ -459,7 +516,8 @@ def ground_truth(prog):
         uk, hk = flags(c['sk'], has_vk, ts['kwargs'][0])
         out.append({'to': c['to'], 'num_args': c['npos'], 'named_args': list(c['names']),
                     'use_varargs': ua, 'use_varkwargs': uk, 'hide_args': ha, 'hide_kwargs': hk,
-                    'partial': prog['route'] == 'partial_inner', 'ignored': not (ua or uk)})
+                    'partial': prog['route'] == 'partial_inner', 'ignored': not (ua or uk),
+                    'unres': bool(c.get('unres'))})
     return out
 
 
@@ -526,7 +584,8 @@ def build(prog):
 def skeleton(prog):
     """Structural key of a program (for distinct-case accounting)."""
     return (prog['route'], prog['deco'], prog['multi'],
-            tuple((c['to'], c['npos'], tuple(c['names']), c['sa'], c['sk'], c['ctx']) for c in prog['calls']),
+            tuple((c['to'], c['npos'], tuple(c['names']), c['sa'], c['sk'], c['ctx'], c.get('inarg'), c.get('unres')) for c in prog['calls']),
+            prog.get('mention'),
             tuple((t['name'], t['where']) for t in prog['taints']),
             universe.spec_text(tuple(Par(*p) for p in prog['outer'])),
             tuple(universe.spec_text(tuple(Par(*p) for p in l)) for l in prog['leaves']), tuple(prog['lkinds']))
